@@ -15,7 +15,7 @@ paras = [x.strip() for x in re.split(r'\n\s*\n', rd)]
 pick = [x for x in paras if re.search(r'manifest|needs|Needs|trigger', x)]
 txt = re.sub(r'\s+', ' ', ' '.join(pick[:2]) if pick else (paras[1] if len(paras) > 1 else ''))[:700]
 meta = {"id": "%s-%s" % (p, m), "property": p,
-        "source": "independent sub-agent given only the property text and a scratch worktree (round 2, told which round-1 changes not to repeat)",
+        "source": "independent sub-agent given only the property text and a scratch worktree (later round, told which earlier changes not to repeat)",
         "needs_to_manifest": txt + ' (full text: agent_README.md)',
         "demo": {"file": "demo_test.go", "copy_to": d, "run": "GOFLAGS=-mod=mod GOPROXY=off go test -vet=off -count=1%s ./%s/" % (extra, os.path.dirname(d))},
         "confirmed": {"by": "scripts/confirm_mutant.sh in the scratch worktree", "build": "ok", "existing_suite_with_patch": "pass", "demo_with_patch": "fails", "demo_without_patch": "passes"}}
